@@ -307,6 +307,41 @@ def integer_scaling_probe(ck):
                     f"{pres.tolist()}, X*scale+offset is {want} (the product wrapped in 32 bits)", inp)
 
 
+def integer_offsets_assign_probe(ck):
+    """fixed cases: offsets (and scales) given as Python ints, values assigned as numpy arrays of narrow integer types: the stored integers are the
+    nearest to (value - offset) / scale - the subtraction must not be carried out in the values' own (8 / 16 bit, unsigned) type"""
+    import laspy
+    for dt in ("u1", "i1", "u2", "i2", "u4"):
+        for how in ("LasData.change_scaling", "record constructor"):
+            for scales, offsets in (([0.01, 0.01, 0.01], [0, 10, 15]), ([1, 1, 1], [300, 10, -7]), ([2, 2, 2], [0, 1000, 0])):
+                vals = np.array([5, 7, 100], dtype=dt)
+                inp = {"kind": "integer_offsets_assign", "how": how, "value_dtype": dt, "scales": scales, "offsets": offsets, "values": vals.tolist()}
+                ck.case(("intoffsets", how, dt, str(scales), str(offsets)), nontrivial=True)
+                ck.count("integer_offsets_assign_probe")
+                try:
+                    if how == "LasData.change_scaling":
+                        las = laspy.create(point_format=0)
+                        las.points = laspy.ScaleAwarePointRecord.zeros(3, header=las.header)
+                        las.change_scaling(scales=scales, offsets=offsets)
+                        las.y = vals
+                        Y, pres = las.points.array["Y"].tolist(), np.array(las.y).tolist()
+                    else:
+                        rec = laspy.ScaleAwarePointRecord.zeros(3, point_format=laspy.PointFormat(0), scales=scales, offsets=offsets)
+                        rec.y = vals
+                        Y, pres = rec.array["Y"].tolist(), np.array(rec.y).tolist()
+                except OverflowError:
+                    ck.count("integer_offsets_assign_probe_overflow")
+                    continue
+                except Exception as e:
+                    ck.count("integer_offsets_assign_probe_raised:" + type(e).__name__)
+                    continue
+                from fractions import Fraction
+                want = [int(round_half_even((Fraction(int(v)) - Fraction(offsets[1])) / Fraction(str(scales[1])), guard=False)) for v in vals.tolist()]
+                if Y != want:
+                    ck.fail(f"y = array({vals.tolist()}, dtype={np.dtype(dt).name}) under scales {scales}, offsets {offsets} (given as Python numbers, {how}): stored Y {Y}, "
+                            f"the nearest integers to (y - offset) / scale are {want}; presented back as {pres}", inp)
+
+
 def stream_layer(ck, n_cases):
     """scale-aware records streamed into a writer or an appender that uses another scaling: the file carries the
     destination's scaling, its coordinates are those the record presented (to within half a step) or the call raises
@@ -341,6 +376,13 @@ def stream_layer(ck, n_cases):
                 with LasWriter(buf, hdr, closefd=False) as w:
                     w.write_points(rec)
                     if twice:
+                        if ci % 2:
+                            # the caller goes on using the header it opened the writer with (the next tile): edits made in place now
+                            # are not the open file's business
+                            hdr.offsets[0] += 1000.0
+                            hdr.scales[1] *= 2.0
+                            hdr.z_offset = hdr.z_offset - 64.0
+                            ck.count("stream:callers_header_edited_in_place_during_session")
                         w.write_points(rec)
             else:
                 laspy.LasData(hdr).write(buf)
@@ -622,6 +664,7 @@ def run(ck):
     stream_layer(ck, 60 if q else 1500)
     stream_views_layer(ck, 30 if q else 600)
     integer_scaling_probe(ck)
+    integer_offsets_assign_probe(ck)
     value_dtype_layer(ck, 80 if q else 2000)
     out = ck.driver(lines)
     bad = None
